@@ -186,7 +186,7 @@ func (s *c16Scn) csr(names []string) (*x509.CertificateRequest, error) {
 func (s *c16Scn) setup(callGroups [][]int) error {
 	e, in := s.e, s.in
 	e.seq++
-	h := &c16Hist{in: in, provider: &doubles.DNSProviderDouble{}, preMem: map[string]bool{}}
+	h := &c16Hist{in: in, provider: &doubles.DNSProviderDouble{MinTTL: c16MinTTL}, preMem: map[string]bool{}}
 	s.h = h
 	e.backend.HonourCtx = in.Honour
 	for _, k := range e.backend.Keys() {
@@ -213,7 +213,7 @@ func (s *c16Scn) setup(callGroups [][]int) error {
 		}
 	}
 	h.ik = c15IssuerKeyOf(s.x.ca.URL)
-	h.dnsSolv = &certmagic.DNS01Solver{DNSManager: certmagic.DNSManager{DNSProvider: h.provider, PropagationTimeout: -1, Resolvers: []string{"127.0.0.1:1"}}}
+	h.dnsSolv = &certmagic.DNS01Solver{DNSManager: certmagic.DNSManager{DNSProvider: h.provider, TTL: time.Duration(in.DNSTTL) * time.Second, PropagationTimeout: -1, Resolvers: []string{"127.0.0.1:1"}}}
 	if in.E2E.Variant == "cancel-in-wait" {
 		h.dnsSolv.PropagationDelay = 20 * time.Second // acmez's Wait blocks here until the context is cancelled
 	}
